@@ -115,7 +115,7 @@ func VerifC09Callback() {
 	v, _ := verifAuthValidators()
 	env := verifNewAuth(v, []string{".sso.test"})
 	nonce := zz.NondetString("nonce")
-	zz.Assume(zz.And(!contains(nonce, ":"), verifCookieOK(nonce)))
+	zz.Assume(!contains(nonce, ":")) // any colon-free string, the empty one included (it comes from the state, not from a cookie)
 	rHost := zz.NondetString("redirect.host")
 	zz.Assume(verifHostOK(rHost))
 	redirect := zz.MakeURL("https", rHost, "/sign_in", "")
